@@ -8,6 +8,7 @@ mod obs;
 mod props;
 mod refmodel;
 mod rng;
+mod session;
 mod suites;
 
 use engine::{finish, replay_part, run_part, Cfg, Part, PartReport, Tier};
@@ -166,6 +167,38 @@ fn main() {
             if let (Some(path), Some(t)) = (&args.transcript, &p.transcript) {
                 std::fs::write(path, t.lock().unwrap().join("\n") + "\n").expect("cannot write transcript");
             }
+        }
+        "C04" => {
+            let t = cfg.tier.thorough();
+            assumptions.push("sequence positions outside SEQ_STARTS, the consecutive run from 0 and the embedding windows are not covered; the context has no state besides (seq, overflowed) and its immutable keys (explored separately by the unmerged history trees and C18)".into());
+            go(&session::NonceFormula { suites: session::seq_suites(t), run_len: if t { 1 << 22 } else { 1 << 12 } }, &cfg, &mut reports, &mut replayed);
+            go(&session::E2a { focus: session::Focus::Sender, suites: session::seq_suites(false), ws: if t { vec![3, 4] } else { vec![3] } }, &cfg, &mut reports, &mut replayed);
+            let mut starts: Vec<u64> = (0..4).map(|d| u64::MAX - d).collect();
+            starts.extend_from_slice(&[0, 254, (1 << 32) - 2, (1 << 56) - 1, u64::MAX - 5]);
+            go(&session::E2b { suites: session::seq_suites(false), starts, depth: if t { 7 } else { 5 }, letters: vec![0, 1, 10], label: "sender".into() }, &cfg, &mut reports, &mut replayed);
+        }
+        "C05" => {
+            let t = cfg.tier.thorough();
+            assumptions.push("the adversary's corruption alphabet is the 11 classes of session.rs (one representative position each; C06 enumerates every bit); positions outside the start sets and embedding windows are not covered".into());
+            go(&session::E2a { focus: session::Focus::Receiver, suites: session::seq_suites(false), ws: if t { vec![3, 4] } else { vec![3] } }, &cfg, &mut reports, &mut replayed);
+            let starts: Vec<u64> = if t { session::seq_starts().into_iter().filter(|p| *p % 2 == 1 || *p > u64::MAX - 4 || *p < 3).collect() } else { vec![0, 255, (1 << 32) - 1, (1 << 56) - 1, u64::MAX - 3, u64::MAX - 2, u64::MAX - 1, u64::MAX] };
+            go(&session::E2b { suites: session::seq_suites(false), starts, depth: if t { 4 } else { 3 }, letters: (0..12).collect(), label: "full".into() }, &cfg, &mut reports, &mut replayed);
+            if t {
+                go(&session::E2b { suites: session::seq_suites(false), starts: vec![0, u64::MAX - 2, u64::MAX - 1], depth: 5, letters: (0..12).collect(), label: "deep".into() }, &cfg, &mut reports, &mut replayed);
+            }
+        }
+        "C11" => {
+            let t = cfg.tier.thorough();
+            go(&props::c11::C11, &cfg, &mut reports, &mut replayed);
+            let mut suites = vec![];
+            for s in suites::all_suites() {
+                if s.kem == refmodel::Kem::X25519 || (t && s.kem == refmodel::Kem::P256) {
+                    if s.aead.can_seal() {
+                        suites.push(s);
+                    }
+                }
+            }
+            go(&session::E2a { focus: session::Focus::Export, suites, ws: vec![3] }, &cfg, &mut reports, &mut replayed);
         }
         "C16" => {
             level = "exploration";
